@@ -265,12 +265,18 @@ type mslDeclQuals struct {
 	Const, Volatile, Constexpr, Static, Inline bool
 	Space                                      string
 	Pos                                        Pos
+	afterType                                  bool // parsing the qualifiers that follow the type name
 }
 
 func (fe *mslFE) parseQualWords(p *parser, q *mslDeclQuals) {
 	for {
 		t := p.peek()
 		if t.Kind != TIdent {
+			return
+		}
+		if n := p.peekN(1); q.afterType && n.Kind == TPunct && (n.Text == "=" || n.Text == ";" || n.Text == "," || n.Text == ")" || n.Text == "[" || n.Text == "(" || n.Text == "{") {
+			// `int device = 1;`: the word sits where the declarator name
+			// belongs; let declIdent diagnose the keyword
 			return
 		}
 		switch {
@@ -333,6 +339,7 @@ func (fe *mslFE) parseTypeName(p *parser, q *mslDeclQuals) *TypeExpr {
 			base = map[string]string{"int": "uint", "char": "uchar", "short": "ushort", "long": "ulong"}[base]
 		}
 		tx.Name = base
+		fe.checkBuiltinTypeName(p, t, base, false)
 	case t.Text == "struct" || t.Text == "class":
 		p.next()
 		n := p.peek()
@@ -378,6 +385,7 @@ func (fe *mslFE) parseTypeName(p *parser, q *mslDeclQuals) *TypeExpr {
 		}
 		p.acceptWord("int")
 		tx.Name = "long"
+		fe.checkBuiltinTypeName(p, t, "long", false)
 	case t.Text == "short":
 		p.next()
 		p.acceptWord("int")
@@ -398,7 +406,9 @@ func (fe *mslFE) parseTypeName(p *parser, q *mslDeclQuals) *TypeExpr {
 	if p.isPunct("<") {
 		p.peek().Pos.unsupported(MSL, "template type %s<...>", tx.Name)
 	}
+	q.afterType = true
 	fe.parseQualWords(p, q)
+	q.afterType = false
 	return tx
 }
 
@@ -771,6 +781,11 @@ func (fe *mslFE) startsDecl(p *parser) bool {
 	}
 	end, ok := fe.scanType(p, p.i)
 	if !ok {
+		if n := p.peekN(1); n.Kind == TIdent && !mslIsKeyword(t.Text) && !mslIsKeyword(n.Text) && !fe.hiddenByVar(p, t.Text) {
+			// two identifiers in a row cannot start an expression: a
+			// declaration whose type name is unknown
+			t.Pos.invalid(MSL, "undeclared", "unknown type name %q", t.Text)
+		}
 		return false
 	}
 	n := p.toks[end]
@@ -1029,9 +1044,6 @@ func (fe *mslFE) parseExternalDecl(p *parser) *mslTop {
 			continue
 		}
 		break
-	}
-	if p.isWord("void") {
-		// handled by parseTypeName through mslTypeNames
 	}
 	tx := fe.parseTypeName(p, &q)
 	// a stage qualifier may also follow other specifiers
